@@ -14,10 +14,14 @@ Norm(n, d) == LET s == IF d < 0 THEN 0 - 1 ELSE 1
 R(n)        == <<n, 1>>
 RZ          == <<0, 1>>
 ROne        == <<1, 1>>
-RAdd(a, b)  == Norm(a[1] * b[2] + b[1] * a[2], a[2] * b[2])
-RSub(a, b)  == Norm(a[1] * b[2] - b[1] * a[2], a[2] * b[2])
-RMul(a, b)  == Norm(a[1] * b[1], a[2] * b[2])
-RDiv(a, b)  == Norm(a[1] * b[2], a[2] * b[1])          \* b # 0
+\* sums over the least common denominator (keeps intermediates small)
+RAdd(a, b)  == LET g == Gcd(a[2], b[2]) IN Norm(a[1] * (b[2] \div g) + b[1] * (a[2] \div g), (a[2] \div g) * b[2])
+RSub(a, b)  == LET g == Gcd(a[2], b[2]) IN Norm(a[1] * (b[2] \div g) - b[1] * (a[2] \div g), (a[2] \div g) * b[2])
+\* products cross-cancel first
+RMul(a, b)  == LET g1 == Gcd(RAbs(a[1]), b[2])  g2 == Gcd(RAbs(b[1]), a[2])
+                   h1 == IF g1 = 0 THEN 1 ELSE g1   h2 == IF g2 = 0 THEN 1 ELSE g2 IN
+               Norm((a[1] \div h1) * (b[1] \div h2), (a[2] \div h2) * (b[2] \div h1))
+RDiv(a, b)  == RMul(a, IF b[1] < 0 THEN <<0 - b[2], 0 - b[1]>> ELSE <<b[2], b[1]>>)          \* b # 0
 RNeg(a)     == <<0 - a[1], a[2]>>
 RLt(a, b)   == a[1] * b[2] < b[1] * a[2]
 RLe(a, b)   == a[1] * b[2] <= b[1] * a[2]
